@@ -17,10 +17,7 @@
  * loop itself.  Observation point: the --wrap'ed epoll_pwait2/poll/select
  * (vclock_prewait_hook): epoll's interest list is read from /proc/self/fdinfo,
  * poll/select give their arrays.  Every history ends with a wait. */
-#include "backend_common.h"
-#include "epoll.c"
-#include "poll.c"
-#include "select.c"
+#include "backend_digest.h"
 
 #define NSLOT 2
 #define NT 7
@@ -32,9 +29,10 @@ static const struct { short ev; const char *name; int et; } T[NT] = {
 
 static int BK, NTB;
 static struct event_base *base;
-static struct event *evs[NSLOT][NT];
+static struct event evs[NSLOT][NT];
 static int added[NSLOT][NT];          /* reference model: which events are added */
-static struct event *sentinel;
+static struct event sentinel;
+static long live0; static uint64_t fd0;   /* per-process baselines (taken once in init) */
 static int n_cb, n_waits, ops_since_wait;
 static char keybuf[96];
 
@@ -148,13 +146,13 @@ static int any_added(int s, int et) { for (int t = 0; t < NT; t++) if (added[s][
 
 static void do_add(int s, int t)
 {
-	int r = event_add(evs[s][t], NULL);
+	int r = event_add(&evs[s][t], NULL);
 	if (r != 0) mc_fail(K("add-failed"), "event_add(%s on fd %d) returned %d (%s)", T[t].name, slot_fd[s], r, bk_last_warning);
 	added[s][t] = 1;
 }
 static void do_del(int s, int t)
 {
-	int r = event_del(evs[s][t]);
+	int r = event_del(&evs[s][t]);
 	if (r != 0) mc_fail(K("del-failed"), "event_del(%s on fd %d) returned %d (%s)", T[t].name, slot_fd[s], r, bk_last_warning);
 	added[s][t] = 0;
 }
@@ -171,29 +169,7 @@ static uint64_t canon(void)
 {
 	uint64_t h = mc_hash_u64(0x5c05, (uint64_t)BK);
 	for (int s = 0; s < NSLOT; s++) { int m = 0; for (int t = 0; t < NT; t++) m |= added[s][t] << t; h = mc_hash_u64(h, (uint64_t)m); }
-	if (BK == BK_EPOLL || BK == BK_EPOLL_CL) {
-		struct epollop *ep = base->evbase; struct bk_epreg r[64];
-		int k = bk_epoll_registrations(ep->epfd, r, 64);
-		unsigned reg[NSLOT] = { 0, 0 };
-		for (int i = 0; i < k; i++) { int s = slot_of_fd(r[i].fd); if (s >= 0) reg[s] = 1u | (r[i].events & (EPOLLIN | EPOLLOUT | EPOLLRDHUP | EPOLLET)); }
-		for (int s = 0; s < NSLOT; s++) h = mc_hash_u64(h, reg[s]);
-		h = mc_hash_u64(h, (uint64_t)base->changelist.n_changes);
-		for (int i = 0; i < base->changelist.n_changes; i++) {
-			struct event_change *c = &base->changelist.changes[i];
-			h = mc_hash_u64(h, ((uint64_t)c->fd << 40) | ((uint64_t)(unsigned short)c->old_events << 24) | (c->read_change << 16) | (c->write_change << 8) | c->close_change);
-		}
-	} else if (BK == BK_POLL) {
-		struct pollop *pop = base->evbase;
-		h = mc_hash_u64(h, ((uint64_t)pop->nfds << 32) | (unsigned)pop->event_count);
-		for (int i = 0; i < pop->nfds; i++) h = mc_hash_u64(h, ((uint64_t)pop->event_set[i].fd << 16) | (unsigned short)pop->event_set[i].events);
-		for (int s = 0; s < NSLOT; s++) { struct pollidx *ix = slot_fd[s] < base->io.nentries ? evmap_io_get_fdinfo_(&base->io, slot_fd[s]) : NULL; h = mc_hash_u64(h, ix ? (uint64_t)ix->idxplus1 + 1 : 0); }
-	} else {
-		struct selectop *sop = base->evbase;
-		h = mc_hash_u64(h, ((uint64_t)sop->event_fds << 32) | ((unsigned)sop->event_fdsz << 1) | (unsigned)sop->resize_out_sets);
-		h = mc_hash(h, sop->event_readset_in, sop->event_fdsz);
-		h = mc_hash(h, sop->event_writeset_in, sop->event_fdsz);
-	}
-	return h;
+	return mc_hash_u64(h, bk_impl_digest(base, BK, slot_fd, NSLOT));
 }
 
 static void one_wait(void)
@@ -209,7 +185,6 @@ static void body(void)
 	int D = mc_param("depth", 4), pruned = 0;
 	BK = mc_param("backend", 0);
 	NTB = (BK == BK_EPOLL || BK == BK_EPOLL_CL) ? NT : NT - 2;
-	long live0 = mcx_alloc_live(); uint64_t fd0 = mcx_fd_signature();
 	vclock_reset(); vclock_prewait_hook = prewait; vclock_idle_hook = NULL;
 	bk_warnings = 0; bk_last_warning[0] = 0; n_cb = n_waits = ops_since_wait = 0;
 	memset(added, 0, sizeof added);
@@ -217,11 +192,11 @@ static void body(void)
 	if (!base) return;
 	for (int s = 0; s < NSLOT; s++) {
 		if (open_slot(s) < 0) return;
-		for (int t = 0; t < NT; t++) evs[s][t] = event_new(base, slot_fd[s], T[t].ev, cb, (void *)(intptr_t)(s * NT + t));
+		for (int t = 0; t < NT; t++) event_assign(&evs[s][t], base, slot_fd[s], T[t].ev, cb, (void *)(intptr_t)(s * NT + t));
 	}
 	/* keeps event_haveevents() true so that every `wait` really reaches the backend */
 	struct timeval far = { 100000, 0 };
-	sentinel = event_new(base, -1, EV_PERSIST, sentinel_cb, NULL); event_add(sentinel, &far);
+	event_assign(&sentinel, base, -1, EV_PERSIST, sentinel_cb, NULL); event_add(&sentinel, &far);
 
 	const int n_toggle = NSLOT * NTB, n_ops = n_toggle + 2 * NSLOT + 1;
 	for (int step = 0; step < D; step++) {
@@ -254,8 +229,8 @@ static void body(void)
 	}
 	if (!pruned && !mc_failed() && ops_since_wait) { one_wait(); mc_observe("final-wait "); }
 
-	for (int s = 0; s < NSLOT; s++) for (int t = 0; t < NT; t++) event_free(evs[s][t]);
-	event_free(sentinel);
+	for (int s = 0; s < NSLOT; s++) for (int t = 0; t < NT; t++) event_del(&evs[s][t]);
+	event_del(&sentinel);
 	event_base_free(base); base = NULL;
 	for (int s = 0; s < NSLOT; s++) close_slot(s);
 	vclock_prewait_hook = NULL;
@@ -268,6 +243,7 @@ static void init(void)
 	bk_process_init();
 	for (int s = 0; s < NSLOT; s++)
 		if (fcntl(slot_fd[s], F_GETFD) != -1 || fcntl(slot_peer[s], F_GETFD) != -1) { fprintf(stderr, "c05: slot fd numbers are in use\n"); _exit(2); }
+	live0 = mcx_alloc_live(); fd0 = mcx_fd_signature();
 }
 
 int main(int argc, char **argv)
